@@ -155,3 +155,6 @@ def check(ctx):
     ctx.cfg = "bin+server"
     W_ac(ctx, others)
     kernel.W_store(ctx, others, rule="S.W-store/ext")
+    if ctx.tier == "thorough":
+        from rules import witness
+        witness.check(ctx, ['W02', 'W03', 'W04', 'W05', 'W12'])   # informational: what external crates cannot reach (scope of the who-may-write census)
